@@ -150,7 +150,7 @@ class T1:
                              "num_children(%s) = %s but for_each_child visits %d children" % (name, v[1], len(self.order[name])))
 
 
-def eval_variant_pred(body, pid, variant_path, depth=0):
+def eval_variant_pred(body, pid, variant_path, depth=0, get_fn=None):
     """value of a bool-valued function body for an argument that is the given variant of an enum (fields unknown):
     True / False, or None when it depends on anything else.  Understands match / matches! on the parameter, bool literals,
     && || !, immutable bool lets, if/else, early `return`s (also of inlined helpers)."""
@@ -180,6 +180,12 @@ def eval_variant_pred(body, pid, variant_path, depth=0):
                 return True
         return res
 
+    subj = {pid}        # the parameter and the catch-all bindings of matches on it (`other => helper(other)`)
+
+    def is_subj(x):
+        x = peel(x)
+        return x.get("k") == "local" and (x["id"] in subj or canon(x["id"]) in subj)
+
     def ev(e, d):
         if d > 40:
             return None
@@ -187,6 +193,14 @@ def eval_variant_pred(body, pid, variant_path, depth=0):
         k = e.get("k")
         if k == "lit" and isinstance(e.get("v"), bool):
             return e["v"]
+        if k == "call" and get_fn is not None and depth < 4 and len(e.get("args", [])) == 1 and is_subj(e["args"][0]):
+            # a shared bool helper applied to the same value: evaluated for the same variant
+            g = get_fn(callee(e) or "")
+            if g is not None and len(g.get("params", [])) == 1:
+                gb = pat_bindings(g["params"][0])
+                if len(gb) == 1:
+                    return eval_variant_pred(g["body"], gb[0][1], variant_path, depth + 1, get_fn)
+            return None
         if k == "unary" and e["op"] == "!":
             v = ev(e["e"], d + 1)
             return None if v is None else (not v)
@@ -200,13 +214,18 @@ def eval_variant_pred(body, pid, variant_path, depth=0):
                 return True
             return False if (a is False and b is False) else None
         if k == "match":
-            if not is_local(e["scrut"], pid):
+            if not is_subj(e["scrut"]):
                 return None
             for arm in e["arms"]:
                 m = pat_matches(arm["pat"])
                 if m is None or "guard" in arm and m:
                     return None
                 if m:
+                    ap = arm["pat"]
+                    while ap.get("k") in ("pref", "pderef"):
+                        ap = ap["pat"]
+                    if ap.get("k") == "pbind" and "sub" not in ap:
+                        subj.add(ap["id"])
                     return ev(arm["body"], d + 1)
             return None
         if k == "if":
